@@ -48,6 +48,24 @@ class Probe:
             yield m
 
 
+class HintProbe(Probe):
+    """A source that also answers operator.length_hint() - with an estimate that is off by `off` (PEP 424 allows
+    hints to be wrong), relative to what is left."""
+
+    def __init__(self, items, off):
+        super().__init__(items)
+        self.left = len(items)
+        self.off = off
+
+    def __next__(self):
+        m = super().__next__()
+        self.left -= 1
+        return m
+
+    def __length_hint__(self):
+        return max(self.left + self.off, 0)
+
+
 def counts_for(n):
     return sorted({-1, 0, 1, 2, n - 1, n, n + 1} - {-2})
 
@@ -70,6 +88,8 @@ def run_chain(matches, chain, terminal, env, order_rng=None, source="iterator"):
     import jsonpath
 
     probe = Probe(matches)
+    if source.startswith("hint"):
+        probe = HintProbe(matches, int(source[4:]))
     q = jsonpath.Query(probe.gen() if source == "generator" else probe, env)
     L = list(matches)
     pending = []  # (Query, expected list, label)
@@ -241,6 +261,13 @@ def run(spec, ctx):
                             if diff:
                                 diff = "with a match class whose instances can be falsy (%s): %s" % (fk, diff)
                                 break
+                    if not diff and length <= 2:
+                        for src in ("hint+0", "hint+3", "hint-2", "hint+1000"):
+                            diff, p = run_chain(ms, chain, term, env, source=src)
+                            total += 1
+                            if diff:
+                                diff = "with a source whose length hint is %s: %s" % (src[4:], diff)
+                                break
                     if not diff and length == 1:
                         # the same chain after pulling 1 match by plain iteration from a generator source
                         diff, p = run_chain(ms, (("pull", 1),) + tuple(chain), term, env, source="generator")
@@ -284,7 +311,7 @@ def run(spec, ctx):
                 fk = r.choice(["bool", "len"])
                 ms = matches_for(n, fk)
                 ctx.count("chains_on_falsy_match_objects")
-            diff, p = run_chain(ms, chain, term, env, order_rng=r, source=r.choice(["iterator", "generator", "generator"]))
+            diff, p = run_chain(ms, chain, term, env, order_rng=r, source=r.choice(["iterator", "generator", "generator", "hint+0", "hint+2", "hint-1", "hint+50"]))
             ctx.evaluation()
             ctx.case(h(n, chain, term))
             ctx.count("H8_source_pulls", p)
@@ -311,7 +338,7 @@ def replay(case, ctx):
     for seed in range(18):
         ms = matches_for(case["n"], [None, "bool", "len"][seed // 6])
         seed %= 6
-        diff, _ = run_chain(ms, [tuple(x) for x in case["chain"]], case["terminal"], jsonpath.DEFAULT_ENV, order_rng=random.Random(seed) if seed else None, source="generator" if seed % 2 else "iterator")
+        diff, _ = run_chain(ms, [tuple(x) for x in case["chain"]], case["terminal"], jsonpath.DEFAULT_ENV, order_rng=random.Random(seed) if seed else None, source=["iterator", "generator", "hint+3", "hint-2", "hint+0", "hint+1000"][seed])
         if diff:
             ctx.violation("chain-differs-from-list-model:replay", case, {"diff": diff})
             return
